@@ -8,4 +8,7 @@ namespace cs
     static ContReg f4("uset.tiny.fb", &run_container<KUSet, Tiny, 6>);
     static ContReg f5("string.char.fb", &run_container<KString, Tiny, 6>);
     static ContReg f6("map.v4.fb", &run_container<KMap, Val<4, 4>, 6>);
+    // an over-aligned element type (alignas(64)) in the array-based containers
+    static ContReg o1("vec.v64a.typed", &run_container<KVec, Val<64, 64>, 0>);
+    static ContReg o2("deque.v64a.any", &run_container<KDeque, Val<64, 64>, 1>);
 } // namespace cs
